@@ -27,7 +27,7 @@ def run(pid, tier, seed):
                 "newtype, struct variant) present one field of type F by name / #[ts(inline)] / #[ts(flatten)] (object-like F) / "
                 "#[ts(as = \"F\")] on a field of another type / on a newtype or struct variant of an enum of every representation / container-level as; plus inlined-inside-flattened and vice versa. Oracle "
                 "(tsmodel, bounded mutual inclusion of enumerated inhabitants): by-name ~ inline; flatten ~ `{ own } & (F)` built by the model; "
-                "the `as` declaration is textually the twin's; container-level as ~ F; for every exportable type inline() ~ name() resolved "
+                "the `as` declaration is textually the twin's (also `as` + `inline` on a field or on the field of a newtype variant against the inlined twin); container-level as ~ F; for every exportable type inline() ~ name() resolved "
                 "through the declarations. distinct_nontrivial = distinct (check, shape, kind of F, representation of F)")
     chk.assumptions = ["equivalence is bounded (witness depth 3, <= 80 per type)"]
     try:
@@ -102,11 +102,15 @@ def run(pid, tier, seed):
                                               f"that type gives `{res['twin'][:200]}`", wit, tags=ttags + ktags + ["as"])
                             continue
                         if cname.endswith("=twin"):
-                            chk.add_distinct((cname, g.get("variant_rep"), g["kind"]))
+                            role = cname.split("=")[0]
+                            vrep = g.get("nv_rep") if role == "nv-as-inline" else g["shape"] if role == "as-inline" else g.get("variant_rep")
+                            chk.add_distinct((cname, vrep, g["kind"]))
                             if not res["equal"]:
-                                chk.violation(f"C14|{cname.split('=')[0]}-differs-from-twin|{g.get('variant_rep')}|{g['kind']}",
-                                              f"#[ts(as = \"{g['ftype']}\")] on a variant of a {g.get('variant_rep')} enum gives `{res['as'][:200]}`, a "
-                                              f"variant holding that type gives `{res['twin'][:200]}`", wit, tags=ttags + ktags + ["as", "variant-as"])
+                                where = {"as-inline": f"an inlined field ({g['shape']})", "nv-as-inline": f"the inlined field of a newtype variant of a {vrep} enum"}.get(
+                                    role, f"a variant of a {vrep} enum")
+                                chk.violation(f"C14|{role}-differs-from-twin|{vrep}|{g['kind']}",
+                                              f"#[ts(as = \"{g['ftype']}\")] on {where} gives `{res['as'][:200]}`, the same "
+                                              f"holding that type gives `{res['twin'][:200]}`", wit, tags=ttags + ktags + ["as", "variant-as" if role.startswith("variant") else role])
                             continue
                         for d, v in verdicts(res):
                             chk.violation(f"C14|{cname}|{d}|{g['shape']}|{g['kind']}|{rep}",
